@@ -323,7 +323,7 @@ class CoapH(explore.Harness):
 
         return (_c.canon(e, depth=1, skip=("recv_ctx", "send_ctx", "event_ctx", "coap_ctx", "lock")), e.lock.locked(), e.send_ctr, e.recv_ctr, e.event_ctr, e.coap_ctx is None, self.acc_rx, self.acc_tx, self.acc_ev, tuple((t.done(), t.cancelled()) for t in self.tasks),
                 len([1 for r, _ in self.ctx.pending if not r.response.done()]), len(self.sent), len(self.sent_ev), len(getattr(self, "prepared", ())),
-                tuple(sorted(round(h._when - self.loop.time(), 6) for h in self.loop._scheduled if not h._cancelled)))
+                tuple(sorted(round(h._when - self.loop.time(), 6) for h in self.loop._scheduled if not h._cancelled)), _c.tasks_sig(self.loop))
 
     def outcome(self):
         return f"send={self.enc.send_ctr},recv={self.enc.recv_ctr},ev={self.enc.event_ctr},alive={self.enc.coap_ctx is not None}"
